@@ -417,7 +417,11 @@ def mangle_file_for_iso9660(orig, iso_level):
 
     # All right, now we have the basename of the file, and (optionally) an
     # extension.
-    return truncate_basename(basename, iso_level, False), valid_ext + ';1'
+    valid_base = truncate_basename(basename, iso_level, False)
+    if iso_level in (2, 3):
+        # Ecma-119 7.5.2: the name plus the extension cannot exceed 30.
+        valid_base = valid_base[:30 - len(valid_ext)]
+    return valid_base, valid_ext + ';1'
 
 
 def mangle_dir_for_iso9660(orig, iso_level):
